@@ -231,7 +231,9 @@ func entryName(c string, j int, root string) string {
 
 type errReader struct{}
 
-func (errReader) Read([]byte) (int, error) { return 0, errors.New("verif: connection reset in the middle of the body") }
+func (errReader) Read([]byte) (int, error) {
+	return 0, errors.New("verif: connection reset in the middle of the body")
+}
 
 type zeroReader struct{}
 
@@ -324,10 +326,10 @@ func buildArchive(id string, sc *Sc, root string) ([]byte, []string, error) {
 
 type world struct {
 	root, target, srv, obs, outside string
-	cfgs                           []*ExecConfig
-	cands                          map[string][]string // final name -> admissible content hashes
-	archSHA                        string
-	preMf, preSt                   []byte
+	cfgs                            []*ExecConfig
+	cands                           map[string][]string // final name -> admissible content hashes
+	archSHA                         string
+	preMf, preSt                    []byte
 }
 
 func sha(b []byte) string { s := sha256.Sum256(b); return hex.EncodeToString(s[:]) }
@@ -755,8 +757,8 @@ func Exec(cfg *ExecConfig, obs Obs, readHwm bool, before, after func()) ExecResu
 	}
 	transportMu.Unlock()
 	opts := creg.InstallOptions{Name: cfg.Name, IndexFile: cfg.IndexFile,
-		IndexVerifier:    &idxVerifier{cfg: cfg, obs: obs, inner: tv, ver: indexVersion(cfg.IndexFile), hwm: readHwm},
-		ArtifactVerifier: &verifier{cfg: cfg, obs: obs},
+		IndexVerifier:         &idxVerifier{cfg: cfg, obs: obs, inner: tv, ver: indexVersion(cfg.IndexFile), hwm: readHwm},
+		ArtifactVerifier:      &verifier{cfg: cfg, obs: obs},
 		RunningConduitVersion: "1.0.0", RunningProtocolVersion: "1.0.0", InstalledBy: "verif",
 		LockTimeout: 20 * time.Second, HTTPClient: &http.Client{Transport: tr},
 		AllowUnsigned: cfg.Unsigned, TTY: cfg.Pol.TTY, CIEnv: cfg.Pol.CI, IsMCP: cfg.Pol.MCP, EnvVarSet: cfg.Pol.Env,
